@@ -410,6 +410,8 @@ def make(seed, **kw):
     four has sheet titles whose case mappings are not mirror images (LAYOUT_CASE) and one
     in four the same sheet title in two books (LAYOUT_SAME)."""
     kw = dict(kw)
+    if kw.pop('overlaps', False) and seed % 5 == 2:
+        return make_overlap(seed)
     if kw.pop('case_titles', False) and 'sheets' not in kw:
         if seed % 4 == 3:
             kw['sheets'] = LAYOUT_CASE
@@ -470,6 +472,38 @@ def needed_from(g, roots):
         if c['k'] == 'sp':
             stack.append(c['anchor'])
     return seen
+
+
+def make_overlap(seed):
+    """Two referenced ranges that share one unpopulated cell: the smaller one has another
+    unpopulated cell too, the larger one only the shared one (so the shared cell has a node
+    of its own).  g.directed lists the input lists worth trying: the shared cell, the
+    other blank, a populated cell."""
+    rnd = random.Random(seed * 57 + 9)
+    g = Gen(rnd, sheets=LAYOUT[:1], features=())
+    b, s = LAYOUT[0]
+    vert = rnd.random() < 0.5
+
+    def at(k, other=1):          # k-th cell along the line, `other` across it
+        return cid(b, s, other, k) if vert else cid(b, s, k, other)
+
+    def rect(k1, k2, o1=1, o2=1):
+        return ['rng', b, s, o1, k1, o2, k2] if vert else ['rng', b, s, k1, o1, k2, o2]
+    # line: 1 = number, 2 = blank, 3 = blank (shared), 4 = number; second line all numbers
+    for k in (1, 4):
+        g.cells[at(k)] = {'k': 'c', 'v': norm(rnd.choice(NUMS))}
+        g.order.append(at(k))
+    for k in (3, 4):
+        g.cells[at(k, 2)] = {'k': 'c', 'v': norm(rnd.choice(NUMS))}
+        g.order.append(at(k, 2))
+    f1, f2 = at(1, 4), at(2, 4)
+    fn1, fn2 = rnd.choice(['SUM', 'COUNT', 'MAX']), rnd.choice(['SUM', 'SUM', 'MAX'])
+    g.cells[f1] = {'k': 'f', 'e': ['fn', fn1, [rect(1, 3)]]}                 # 3 cells, 2 blanks
+    g.cells[f2] = {'k': 'f', 'e': ['fn', fn2, [rect(3, 4, 1, 2)]]}           # 4 cells, 1 blank
+    g.order += [f1, f2]
+    g.directed = [[at(3)], [at(2)], [at(3), at(1)], [at(4)]]
+    g.seed = seed
+    return g
 
 
 def make_ring(seed):
